@@ -232,7 +232,7 @@ func simWorld(rc *kernel.RunCtx) {
 	w := &world{rc: rc, k: k, t: t, root: root, burst: rc.Param("burst", 0) == 1}
 
 	// ---- the tree
-	dirNames := []string{"a", "b", "pkg", "vendor", "node_modules", ".hidden", "_under", "deep", "x.y"}
+	dirNames := []string{"a", "b", "pkg", "vendor", "node_modules", ".hidden", "_under", "deep", "x.y", "vendored", "vendor.bak", "node_modules2", "my_vendor", "a_b", "b.c", "x_"}
 	var dirs []string
 	dirs = append(dirs, ".")
 	nd := t.Range(0, 6, "ndirs")
@@ -261,6 +261,9 @@ func simWorld(rc *kernel.RunCtx) {
 	for i := 0; i < nf; i++ {
 		dir := dirs[t.Choose(len(dirs), "dir")]
 		name := fmt.Sprintf("f%d", t.Choose(30, "fname"))
+		if t.Chance(1, 8, "odd-name") {
+			name = []string{"_draft", ".hidden", "vendor", "node_modules", "a_b", "x.y", "_"}[t.Choose(7, "oddname")]
+		}
 		rel := filepath.Join(dir, name+".templ")
 		if _, dup := files[rel]; dup {
 			continue
